@@ -1016,6 +1016,9 @@ def numnorm(t):
         inner = numnorm(t[2][0])
         if inner[0] == "int" and " for " in t[1]:
             return ("int", inner[1], t[1].split(" for ")[-1].split(">")[0])
+        if " for " in t[1] and t[1].split(" for ")[-1].split(">")[0] in ("u16", "u32", "u64", "u128", "usize"):
+            # `usize::from(x)`: x at the wider type
+            return ("cast", "IntToInt", inner, t[1].split(" for ")[-1].split(">")[0])
     if k == "call" and t[1] in UNWRAP and t[2] and is_call(strip(t[2][0])) and "TryFrom<" in strip(t[2][0])[1] and strip(t[2][0])[1].endswith("::try_from") and " for " in strip(t[2][0])[1] and len(strip(t[2][0])[2]) == 1:
         # `uN::try_from(x).unwrap()` / `.expect(..)`: where it returns at all, x at the narrower type
         tf = strip(t[2][0])
@@ -1184,8 +1187,21 @@ def for_loops(ctx, se):
                             init = strip(la[0][1])
                             init_call = (c[0], c[1], (init,) + tuple(c[2][1:])) + tuple(c[3:])
         elem = ("field", ("downcast", info["term"], 1), 0)
-        out.append({"next_bb": bb, "switch_bb": nxt, "iter_loc": it_loc, "init": init, "init_call": init_call, "elem": elem, "body_bb": tg[1], "exit_bb": tg[0], "resolved": t.get("resolved")})
+        out.append({"next_bb": bb, "switch_bb": nxt, "iter_loc": it_loc, "init": init, "init_call": init_call, "elem": elem, "body_bb": tg[1], "exit_bb": tg[0], "resolved": t.get("resolved"),
+                    "only_exit": loop_exits(body, bb) == {(nxt, tg[0])}})
     return out
+
+
+def loop_exits(body, head):
+    """the edges that leave the loop whose header is `head` (edges into `unreachable` blocks - the
+    panic side of an assertion - left aside).  A `for` loop that runs all its rounds has exactly
+    one: from the switch on `next()` to the None target; a `break` / `return` inside adds another."""
+    import cfg as _cfg
+    loop = set()
+    for e in _cfg.back_edges(body):
+        if e[1] == head:
+            loop |= _cfg.natural_loop(body, e)
+    return {(b_, s_) for b_ in loop for s_ in body.succs(b_) if s_ not in loop and body.blocks[s_]["term"]["k"] != "unreachable"}
 
 
 def frame_of(ctx, path, param=1, depth=0):
